@@ -22,6 +22,12 @@ fn probe_val(kind: ValKind, empty: bool, emitted: Option<u8>) -> Val {
 
 /// model of the dispatch loop: which spy events must be seen for this list at this rate
 pub fn judge_events(c: &GenCase, ev: &[SpyEvent]) -> Result<(usize, usize), Fail> {
+    judge_events_counted(c, ev).map(|(v, f, _)| (v, f))
+}
+
+/// as `judge_events`, also returning how many values of each kind were offered
+pub fn judge_events_counted(c: &GenCase, ev: &[SpyEvent]) -> Result<(usize, usize, std::collections::BTreeMap<&'static str, usize>), Fail> {
+    let mut offered: std::collections::BTreeMap<&'static str, usize> = std::collections::BTreeMap::new();
     let n = c.mutators.len();
     let rate = c.rate.effective();
     let mut i = 0usize;
@@ -33,6 +39,7 @@ pub fn judge_events(c: &GenCase, ev: &[SpyEvent]) -> Result<(usize, usize), Fail
             return Err(Fail::new("dispatch:order", format!("event #{} starts a value with mutator index {}", i, e0.idx)));
         }
         values += 1;
+        *offered.entry(kind_name(e0.kind)).or_insert(0) += 1;
         if e0.kind == ValKind::Post {
             for j in 0..n {
                 let Some(e) = ev.get(i + j) else {
@@ -114,20 +121,69 @@ pub fn judge_events(c: &GenCase, ev: &[SpyEvent]) -> Result<(usize, usize), Fail
         }
         i += j;
     }
-    Ok((values, fired_total))
+    Ok((values, fired_total, offered))
+}
+
+fn kind_name(k: ValKind) -> &'static str {
+    match k {
+        ValKind::Int => "int",
+        ValKind::Long => "long",
+        ValKind::Float => "float",
+        ValKind::Str => "string",
+        ValKind::Bytes => "bytes",
+        ValKind::Memo => "memo-index",
+        ValKind::Post => "emission",
+    }
+}
+
+/// which kind of value the generator draws (and must offer to the mutators) for a chosen opcode
+fn drawn_kind(code: u8) -> Option<&'static str> {
+    use crate::refpvm::optable as t;
+    match code {
+        t::INT | t::LONG | t::LONG1 | t::LONG4 | t::BININT | t::BININT1 | t::BININT2 => Some("int"),
+        t::FLOAT | t::BINFLOAT => Some("float"),
+        t::STRING | t::UNICODE | t::SHORT_BINUNICODE | t::BINUNICODE | t::BINUNICODE8 => Some("string"),
+        t::BINSTRING | t::SHORT_BINSTRING | t::SHORT_BINBYTES | t::BINBYTES | t::BINBYTES8 | t::BYTEARRAY8 => Some("bytes"),
+        t::GET | t::BINGET | t::LONG_BINGET => Some("memo-index"),
+        _ => None,
+    }
 }
 
 pub fn check_gen(ctx: &Ctx, c: &GenCase, st: &mut Stats) -> Result<(), Fail> {
-    let a = analyze(c, Want { spy: true, ..Default::default() });
+    let a = analyze(c, Want { spy: true, steps: true, ..Default::default() });
     if a.result.is_err() {
         st.label("generation-failed(skipped; C09 decides)");
         return Ok(());
     }
     let rate = c.rate.effective();
     st.label(if rate == 0.0 { "generation at rate 0" } else { "generation at rate 1" });
-    match judge_events(c, &a.spy) {
+    match judge_events_counted(c, &a.spy) {
         Err(f) => ctx.fail(st, f.with_output(a.output().unwrap())),
-        Ok((values, fired)) => {
+        Ok((values, fired, offered)) => {
+            // every value the generator draws for a chosen opcode must have been offered to the mutators
+            // (a value that silently bypasses the chain is "not mutated" at rate 1.0 without any call to see)
+            let mut drawn: std::collections::BTreeMap<&'static str, usize> = std::collections::BTreeMap::new();
+            let mut body = 0usize;
+            for s in a.trace.steps.iter().filter(|s| s.phase == pickle_fuzzer::verif::PHASE_BODY) {
+                body += 1;
+                if let Some(k) = drawn_kind(s.opcode) {
+                    *drawn.entry(k).or_insert(0) += 1;
+                }
+            }
+            drawn.insert("emission", body);
+            for (k, n) in &drawn {
+                let got = offered.get(k).copied().unwrap_or(0);
+                if got != *n {
+                    return ctx.fail(
+                        st,
+                        Fail::new(
+                            format!("values-not-offered:{}", k),
+                            format!("{}: {} {} value(s) were drawn for the chosen opcodes but {} were offered to the registered mutators", c.brief(), n, k, got),
+                        )
+                        .with_output(a.output().unwrap()),
+                    );
+                }
+            }
             st.add("values / emissions offered to mutators", values as u64);
             st.add("mutations applied", fired as u64);
             let bytes_mode = matches!(c.entropy, Entropy::Bytes(_));
